@@ -246,7 +246,7 @@ let mem_cmd (toks : string list) : string option =
             outs := (Printf.sprintf "alloc=%s trailer=%s acc=%s" (zs !st.mb_alloc)
                        (String.concat "," (List.map zs (offs @ items))) (acc_string ks sizes (offsets z64 ks sizes))) :: !outs;
             go (drop nb r)
-        | ("M" | "A") :: r -> outs := ("moved alloc=" ^ zs !st.mb_alloc) :: !outs; go r
+        | ("M" | "A" | "B" | "b") :: r -> outs := ("moved alloc=" ^ zs !st.mb_alloc) :: !outs; go r
         | "V" :: r ->
             let (items, offs) = init_header ks !st in
             outs := (Printf.sprintf "view acc=%s same=1" (acc_string ks items offs)) :: !outs; go r
